@@ -5,7 +5,11 @@
 // build variant.  Everything else here is generic: exact-extent guard-paged arenas, designated cells, two runs per
 // case with different garbage / pre-fills, event logging, crash-to-event handling in forked batches.
 //
-// case line:  <ci> C <row id> <seed> <sa> <sb> <sc> <idxmode a> <idxmode b> <idxmode c> <padmask> <valuemode>
+// Alias modes (Layout.tla AliasModes): none; sc / sa = the broadcast scalar argument is an lvalue inside the result array /
+// inside the other operand's array (at the cell of designated lane aj); ca / cb = the result IS operand a / b (same pointer
+// or register variable, same stride / index list).  Operand values are always the ones held BEFORE the call.
+//
+// case line:  <ci> C <row id> <seed> <sa> <sb> <sc> <idxmode a> <idxmode b> <idxmode c> <padmask> <valuemode> <alias> <aj>
 //             <ci> P <parcpy|parSetZero> <size> <nthreads> <pad> <seed>
 #include "goldilocks_base_field.hpp"
 #include "vh.hpp"
@@ -68,6 +72,9 @@ struct Operand
 #ifdef __AVX512__
     __m512i r512;
 #endif
+    Operand *same = nullptr; // in-place: this input operand IS that (result) operand
+    const E *sloc = nullptr; // broadcast scalar living inside another operand's array
+    E own;                   // broadcast scalar in storage of its own
     bool inmem() const { return kind == K_CONTIG || kind == K_STRIDE || kind == K_INDEX || kind == K_SCALARREF; }
     uint64_t addr(int k) const
     {
@@ -89,10 +96,14 @@ struct Operand
             m = std::max(m, addr(k));
         return m + 1;
     }
-    E *ptr() { return (E *)mem.g.p; }
-    uint64_t *idxp() { return ib.g.p; }
-    E val() const { E e; e.fe = v[0]; return e; }
-    const E &ref() const { return *(const E *)mem.g.p; }
+    E *ptr() { return same ? same->ptr() : (E *)mem.g.p; }
+    uint64_t *idxp() { return same ? same->idxp() : ib.g.p; }
+    // the scalar argument: an lvalue (copied by a by-value parameter, bound by a reference parameter)
+    const E &sref() const { return sloc ? *sloc : (kind == K_SCALARREF ? *(const E *)mem.g.p : own); }
+    __m256i &reg256() { return same ? same->r256 : r256; }
+#ifdef __AVX512__
+    __m512i &reg512() { return same ? same->r512 : r512; }
+#endif
     void setreg(const uint64_t *w)
     {
         if (L == 4)
@@ -126,6 +137,14 @@ struct Row
     void (*call)(Ctx &);
 };
 #define ROW(ID, OPC, LN, KA, KB, KC, AL, ...) {ID, OPC, LN, KA, KB, KC, AL, [](Ctx &x) { __VA_ARGS__; }},
+// the call sites name the overload by its declared signature; LAX_SIG (compiler flag or generated layout17_cfg.inc) leaves
+// the choice to overload resolution, for trees whose declarations differ in by-value / by-reference passing
+#include "layout17_cfg.inc"
+#ifdef LAX_SIG
+#define CALLSIG(FN, ...) Goldilocks::FN
+#else
+#define CALLSIG(FN, ...) static_cast<__VA_ARGS__>(&Goldilocks::FN)
+#endif
 static const Row rows[] = {
 #include "layout17_rows.inc"
 };
@@ -200,10 +219,29 @@ struct RunOut
     bool in_same, slack_ok;
 };
 
+enum Alias { AL_NONE, AL_SC, AL_SA, AL_CA, AL_CB };
+static const char *ALN[] = {"none", "sc", "sa", "ca", "cb"};
+static bool is_scalar(const Operand &X) { return X.kind == K_SCALAR || X.kind == K_SCALARREF; }
+
+// array / register inputs (the broadcast scalar comes afterwards: it may live inside one of these arrays)
 static void setup_input(Operand &X, const uint64_t *val, vh::Rng &garb, uint8_t pat, uint64_t *seen)
 {
     int L = X.L;
-    if (X.inmem())
+    X.sloc = nullptr;
+    if (X.same)
+    {
+        // in place: the operand values go into the result operand (its arena / register variable)
+        Operand &C = *X.same;
+        if (C.kind == K_REG)
+            C.setreg(val);
+        else
+            for (int k = 0; k < L; k++)
+                C.mem.g.p[C.addr(k)] = val[k];
+        for (int k = 0; k < L; k++)
+            seen[k] = X.v[k] = C.kind == K_REG ? val[k] : C.mem.g.p[C.addr(k)];
+        return;
+    }
+    if (X.inmem() && X.kind != K_SCALARREF)
     {
         X.mem.make(X.extent() + X.pad, pat);
         for (size_t i = 0; i < X.mem.g.n; i++)
@@ -220,12 +258,7 @@ static void setup_input(Operand &X, const uint64_t *val, vh::Rng &garb, uint8_t 
             seen[k] = X.v[k] = val[k];
         X.setreg(val);
     }
-    else if (X.kind == K_SCALAR)
-    {
-        for (int k = 0; k < L; k++)
-            seen[k] = X.v[k] = val[0];
-    }
-    else
+    else if (!is_scalar(X))
         for (int k = 0; k < L; k++)
             seen[k] = 0;
     if (X.kind != K_REG && X.kind != K_NONE)
@@ -244,13 +277,38 @@ static void setup_input(Operand &X, const uint64_t *val, vh::Rng &garb, uint8_t 
     }
 }
 
-static void one_run(const Row &row, Ctx &x, const uint64_t *va, const uint64_t *vb, uint64_t seed, int run, RunOut &o)
+// the broadcast scalar: in storage of its own, or an element of the result array (sc) / of the other operand's array (sa)
+static void setup_scalar(Operand &S, Operand &other, Operand &C, Alias al, int aj, uint64_t val, vh::Rng &garb, uint8_t pat, uint64_t *seen)
+{
+    S.sloc = nullptr;
+    if (al == AL_SC)
+    {
+        uint64_t *cell = C.mem.g.p + C.addr(aj);
+        *cell = val;
+        S.sloc = (const E *)cell;
+    }
+    else if (al == AL_SA)
+        S.sloc = (const E *)(other.ptr() + other.addr(aj)); // the scalar IS that element: its value is the element's
+    else if (S.kind == K_SCALARREF)
+    {
+        S.mem.make(1 + S.pad, pat);
+        for (size_t i = 0; i < S.mem.g.n; i++)
+            S.mem.g.p[i] = garb.next();
+        S.mem.g.p[0] = val;
+        S.mem.snapshot();
+    }
+    else
+        S.own.fe = val;
+    for (int k = 0; k < S.L; k++)
+        seen[k] = S.v[k] = S.sref().fe;
+}
+
+static void one_run(const Row &row, Ctx &x, const uint64_t *va, const uint64_t *vb, uint64_t seed, int run, Alias al, int aj, RunOut &o)
 {
     vh::Rng garb(seed * 0x9E3779B97F4A7C15ULL + 0xABCDEF12345ULL * (uint64_t)(run + 1));
     uint8_t pat = run ? 0x3C : 0xC7;
-    setup_input(x.A, va, garb, pat, o.a);
-    setup_input(x.B, vb, garb, pat ^ 0x11, o.b);
     Operand &C = x.C;
+    // result operand first: in the alias modes operand values are placed inside it
     if (C.inmem())
     {
         C.mem.make(C.extent() + C.pad, pat ^ 0x22);
@@ -260,7 +318,6 @@ static void one_run(const Row &row, Ctx &x, const uint64_t *va, const uint64_t *
             uint64_t h = pre.next();
             C.mem.g.p[i] = run ? ~h : h;
         }
-        C.mem.snapshot();
     }
     {
         uint64_t g8[8];
@@ -275,6 +332,16 @@ static void one_run(const Row &row, Ctx &x, const uint64_t *va, const uint64_t *
             C.ib.g.p[k] = C.idx[k];
         C.ib.snapshot();
     }
+    if (!is_scalar(x.A))
+        setup_input(x.A, va, garb, pat, o.a);
+    if (!is_scalar(x.B))
+        setup_input(x.B, vb, garb, pat ^ 0x11, o.b);
+    if (is_scalar(x.A))
+        setup_scalar(x.A, x.B, C, al, aj, va[0], garb, pat, o.a);
+    if (is_scalar(x.B))
+        setup_scalar(x.B, x.A, C, al, aj, vb[0], garb, pat ^ 0x11, o.b);
+    if (C.inmem())
+        C.mem.snapshot(); // after the operand values that live in the result array have been placed
     row.call(x);
     if (C.kind == K_REG)
         C.getreg(o.r);
@@ -293,6 +360,7 @@ static void one_run(const Row &row, Ctx &x, const uint64_t *va, const uint64_t *
     {
         X->mem.release();
         X->ib.release();
+        X->sloc = nullptr;
     }
 }
 
@@ -316,6 +384,11 @@ static void do_call(vh::Out &o, const std::vector<std::string> &t)
     uint64_t st[3] = {vh::parse_u64(t[4]), vh::parse_u64(t[5]), vh::parse_u64(t[6])};
     int im[3] = {atoi(t[7].c_str()), atoi(t[8].c_str()), atoi(t[9].c_str())};
     int padmask = atoi(t[10].c_str()), vmode = atoi(t[11].c_str());
+    Alias al = AL_NONE;
+    for (int i = 0; i < 5; i++)
+        if (t.size() > 12 && t[12] == ALN[i])
+            al = (Alias)i;
+    int aj = t.size() > 13 ? atoi(t[13].c_str()) : 0;
     int L = row.L;
     Ctx x;
     Operand *ops[3] = {&x.A, &x.B, &x.C};
@@ -331,6 +404,29 @@ static void do_call(vh::Out &o, const std::vector<std::string> &t)
             X.idx = gen_idx(rs, im[i], L, i == 2);
         X.pad = (!row.aligned && X.inmem() && ((padmask >> i) & 1)) ? 1 : 0;
     }
+    aj = aj % L;
+    if (al == AL_CA || al == AL_CB)
+    {
+        // in place: one array (or register variable) and one address map for the operand and the result
+        Operand &X = al == AL_CA ? x.A : x.B;
+        if (X.kind != x.C.kind || is_scalar(X) || X.kind == K_NONE)
+        {
+            fprintf(stderr, "alias mode %s does not fit row %s\n", ALN[al], row.id);
+            _exit(2);
+        }
+        if (x.C.kind == K_STRIDE && x.C.stride == 0)
+            x.C.stride = 1; // lanes must stay pairwise distinct
+        X.same = &x.C;
+        X.stride = x.C.stride;
+        X.idx = x.C.idx;
+        X.pad = 0;
+    }
+    if ((al == AL_SC && (!x.C.inmem() || !(is_scalar(x.A) || is_scalar(x.B)))) ||
+        (al == AL_SA && !((is_scalar(x.A) && x.B.inmem() && !is_scalar(x.B)) || (is_scalar(x.B) && x.A.inmem() && !is_scalar(x.A)))))
+    {
+        fprintf(stderr, "alias mode %s does not fit row %s\n", ALN[al], row.id);
+        _exit(2);
+    }
     uint64_t va[8], vb[8];
     for (int k = 0; k < 8; k++)
     {
@@ -338,8 +434,8 @@ static void do_call(vh::Out &o, const std::vector<std::string> &t)
         vb[k] = value(rs, vmode, k + 1);
     }
     RunOut r0, r1;
-    one_run(row, x, va, vb, seed, 0, r0);
-    one_run(row, x, va, vb, seed, 1, r1);
+    one_run(row, x, va, vb, seed, 0, al, aj, r0);
+    one_run(row, x, va, vb, seed, 1, al, aj, r1);
     bool same = memcmp(r0.r, r1.r, 8 * L) == 0 && memcmp(r0.a, r1.a, 8 * L) == 0 && memcmp(r0.b, r1.b, 8 * L) == 0;
     std::vector<long long> chg(r0.chg);
     for (long long i : r1.chg)
@@ -351,6 +447,8 @@ static void do_call(vh::Out &o, const std::vector<std::string> &t)
     o.str("id", row.id);
     o.str("op", OPN[row.op]);
     o.num("nl", L);
+    o.str("alias", ALN[al]);
+    o.num("aj", aj);
     long long pads[3] = {(long long)x.A.pad, (long long)x.B.pad, (long long)x.C.pad};
     o.intarr("pad", pads, 3);
     const char *sk[3] = {"sa", "sb", "sc"}, *ik[3] = {"ia", "ib", "ic"}, *ak[3] = {"aa", "ab", "ac"}, *ek[3] = {"ea", "eb", "ec"};
